@@ -214,4 +214,66 @@ theorem columnValue_two_defs (o : Oracles) (d d' : TableDef) (lo : LineOracle) (
     unfold ParsingInput.new
     simp only [anyJson_of_mem d c hm hj, anyJson_of_mem d' c hm' hj]
 
+/-! ### the binding of a pattern name -/
+
+/-- what pattern `p` contributes on this line: nothing if a capture pattern does not match -/
+def resultOf (lo : LineOracle) (p : Pattern) : Option RegexResult :=
+  match p.mode with
+  | .captures => (lo.captures p.regex).map .captures
+  | .split => some (.split (lo.line :: lo.split p.regex))
+
+/-- the last pattern called `name` that took part -/
+def lastNamed (lo : LineOracle) (name : Text) : List Pattern → Option RegexResult
+  | [] => none
+  | p :: ps =>
+    match lastNamed lo name ps with
+    | some r => some r
+    | none => if name == p.name then resultOf lo p else none
+
+theorem lookup_buildResults (lo : LineOracle) (name : Text) :
+    ∀ (ps : List Pattern) (acc : List (Text × RegexResult)),
+      List.lookup name (buildResults lo ps acc) =
+        match lastNamed lo name ps with
+        | some r => some r
+        | none => List.lookup name acc := by
+  intro ps
+  induction ps with
+  | nil => intro acc; rfl
+  | cons p ps ih =>
+    intro acc
+    simp only [buildResults, lastNamed]
+    cases hm : p.mode with
+    | captures =>
+      simp only []
+      cases hc : lo.captures p.regex with
+      | none =>
+        rw [ih acc]
+        cases lastNamed lo name ps with
+        | some r => rfl
+        | none =>
+          simp only [resultOf, hm, hc, Option.map_none, ite_self]
+      | some gs =>
+        rw [ih]
+        cases lastNamed lo name ps with
+        | some r => rfl
+        | none =>
+          simp only [resultOf, hm, hc, Option.map_some, lookup_cons]
+          by_cases hn : (name == p.name) = true <;> simp [hn]
+    | split =>
+      simp only []
+      rw [ih]
+      cases lastNamed lo name ps with
+      | some r => rfl
+      | none =>
+        simp only [resultOf, hm, lookup_cons]
+        by_cases hn : (name == p.name) = true <;> simp [hn]
+
+/-- a reference to `name` sees the result of the last pattern of that name that took part on the line -/
+theorem lookup_new (d : TableDef) (lo : LineOracle) (name : Text) :
+    List.lookup name (ParsingInput.new d lo).regex = lastNamed lo name d.patterns := by
+  unfold ParsingInput.new
+  simp only []
+  rw [lookup_buildResults]
+  cases lastNamed lo name d.patterns <;> rfl
+
 end Sqlgrep.Extract
